@@ -12,6 +12,19 @@ Arguments add64 : simpl never.
 Arguments inc32 : simpl never.
 Arguments gf128_mul_bytes : simpl never.
 
+(* (a, b) = (x, y) with x, y variables: substitute them.  (injection / inversion try to
+   reduce the components, which here contain GF(2^128) products, and do not return) *)
+Ltac pair_inj2 H x y :=
+  let H1 := fresh in let H2 := fresh in
+  pose proof (f_equal fst H) as H1; pose proof (f_equal snd H) as H2;
+  cbn [fst snd] in H1, H2; clear H; subst x; subst y.
+Ltac pair_inj3 H x y z :=
+  let H1 := fresh in let H2 := fresh in let H3 := fresh in
+  pose proof (f_equal (fun p => fst (fst p)) H) as H1;
+  pose proof (f_equal (fun p => snd (fst p)) H) as H2;
+  pose proof (f_equal snd H) as H3;
+  cbv beta in H1, H2, H3; cbn [fst snd] in H1, H2, H3; clear H; subst x; subst y; subst z.
+
 Lemma len16_nonnil {A} (l : list A) : length l = 16 -> l <> [].
 Proof. intros Hl Hn. rewrite Hn in Hl. discriminate. Qed.
 
@@ -175,4 +188,291 @@ Proof.
     rewrite pad16_nil, xorb_zeros_r by (rewrite length_YA; lia). reflexivity.
   - intros Hn. contradiction.
 Qed.
+
+(* ------------------------------------------------------------------ PARTIAL_BLOCK *)
+
+Lemma length_xorb_key t K : length t <= 16 -> length K = 16 -> length (xorb_list t K) = length t.
+Proof. intros Ht HK. rewrite xorb_length, HK. lia. Qed.
+
+Lemma length_side_open t K : length t <= 16 -> length K = 16 -> length (side t (xorb_list t K)) = length t.
+Proof. intros Ht HK. unfold side. destruct enc; [apply length_xorb_key; assumption|reflexivity]. Qed.
+
+Lemma partial_inv c X d c2 o1 rest :
+  Inv c X -> gcm_partial_block H enc c d = (c2, o1, rest) ->
+  exists d1, d = d1 ++ rest /\ Inv c2 (X ++ d1) /\ O (X ++ d1) = O X ++ o1 /\
+             (rest <> [] -> pb_len c2 = 0) /\ in_length c2 = in_length c.
+Proof.
+  intros (Xc & t & q & HX & HXc & Ht & Ht16 & Hh & Hc & Hk & Hiv & Hal) Hpb.
+  unfold gcm_partial_block in Hpb.
+  destruct (pb_len c) as [|r'] eqn:Hr.
+  - (* no open block *)
+    pair_inj3 Hpb c2 o1 rest. exists []. rewrite !app_nil_r.
+    repeat split; try reflexivity.
+    + exists Xc, t, q. rewrite Hr. repeat split; assumption.
+    + intros _. exact Hr.
+  - assert (Htn : t <> []) by (intros Hn; rewrite Hn in Ht; discriminate).
+    set (K := E (ctrs (S q))) in *.
+    assert (HK : length K = 16) by (apply E_len, length_ctrs).
+    rewrite (Hk Htn) in Hpb.
+    set (k := Nat.min (length d) (16 - S r')) in *.
+    set (d1 := firstn k d) in *.
+    assert (Hd1 : length d1 = k) by (unfold d1; rewrite firstn_length; unfold k; lia).
+    assert (Hk16 : length t + k <= 16) by (unfold k; lia).
+    assert (Hsplit : d = d1 ++ skipn k d) by (unfold d1; symmetry; apply firstn_skipn).
+    assert (HO : O (X ++ d1) = O X ++ xorb_list d1 (skipn (S r') K)).
+    { rewrite HX, <- app_assoc, !(O_split Xc _ q HXc).
+      rewrite gctr_E_short by (try (rewrite app_length; lia); intros Hn; apply app_eq_nil in Hn; tauto).
+      rewrite gctr_E_short by (try lia; exact Htn).
+      fold K. rewrite xorb_app_l by lia. rewrite Ht, app_assoc. reflexivity. }
+    set (o := xorb_list d1 (skipn (S r') K)) in *.
+    set (cb := if enc then o else d1) in *.
+    set (ct := side t (xorb_list t K)).
+    assert (Hct : length ct = S r') by (unfold ct; rewrite length_side_open by (lia || exact HK); exact Ht).
+    assert (Hside : side (t ++ d1) (xorb_list (t ++ d1) K) = ct ++ cb).
+    { rewrite xorb_app_l by lia. rewrite side_app, Ht. reflexivity. }
+    assert (Hcb : length cb = k).
+    { unfold cb, o. destruct enc; [|exact Hd1]. rewrite xorb_length, skipn_length, HK, Hd1. unfold k. lia. }
+    assert (Hy : xorb_list (rev (aad_hash c)) (place (S r') cb) =
+                 xorb_list (ghash_blocks H YA (side Xc (O Xc))) (pad16 (ct ++ cb))).
+    { rewrite Hh. fold K. fold ct. rewrite xorb_assoc. f_equal. rewrite <- Hct. symmetry. apply pad16_app. lia. }
+    remember (16 <=? S r' + length d) as le eqn:Hle; symmetry in Hle; destruct le; pair_inj3 Hpb c2 o1 rest.
+    + (* the block closes *)
+      apply Nat.leb_le in Hle.
+      assert (Hk' : k = 16 - S r') by (unfold k; lia).
+      exists d1. split; [exact Hsplit|]. split; [|split; [exact HO|split; [reflexivity|reflexivity]]].
+      exists (Xc ++ t ++ d1), [], (S q).
+      cbn [aad_hash cur_counter pb_len pb_enc_key orig_IV aad_length length].
+      rewrite rev_involutive.
+      repeat split; try assumption; try lia.
+      * rewrite HX, app_nil_r, app_assoc. reflexivity.
+      * rewrite !app_length, HXc, Hd1. lia.
+      * fold cb. rewrite Hy.
+        replace (side [] (xorb_list [] (E (ctrs (S (S q)))))) with (@nil N) by (unfold side; destruct enc; reflexivity).
+        rewrite pad16_nil, xorb_zeros_r by (rewrite length_ghash_blocks by apply length_YA; lia).
+        rewrite (O_split Xc _ q HXc).
+        rewrite gctr_E_short by (try (rewrite app_length; lia); intros Hn; apply app_eq_nil in Hn; tauto).
+        fold K. rewrite side_app, Hside.
+        rewrite ghash_blocks_app by (exists q; apply length_side_exact; exact HXc).
+        rewrite (ghash_blocks_one H _ (ct ++ cb)); [reflexivity| |rewrite app_length; lia].
+        intros Hn. apply app_eq_nil in Hn. destruct Hn as [Hn _]. rewrite Hn in Hct. discriminate.
+      * rewrite Hc. destruct t; [contradiction|reflexivity].
+      * intros Hn. contradiction.
+    + (* the block stays open *)
+      apply Nat.leb_gt in Hle.
+      assert (Hk' : k = length d) by (unfold k; lia).
+      assert (Hd1d : d1 = d) by (unfold d1; rewrite Hk'; apply firstn_all).
+      exists d1. split; [exact Hsplit|]. split; [|split; [exact HO|split; [|reflexivity]]].
+      * exists Xc, (t ++ d1), q.
+        cbn [aad_hash cur_counter pb_len pb_enc_key orig_IV aad_length].
+        rewrite rev_involutive.
+        repeat split; try assumption.
+        -- rewrite HX, app_assoc. reflexivity.
+        -- rewrite app_length, Ht, Hd1, Hk'. reflexivity.
+        -- rewrite app_length. lia.
+        -- fold cb. rewrite Hy. fold K. rewrite Hside. reflexivity.
+        -- rewrite Hc. destruct t; [contradiction|reflexivity].
+      * intros Hn. exfalso. apply Hn. rewrite Hk'. apply skipn_all.
+Qed.
+
+
+(* ------------------------------------------------------------------ full blocks and the new open block *)
+
+Lemma nfull_bounds (n : nat) (dfr : bool) :
+  let nblk := n / 16 in
+  let nfull := if (dfr && (0 <? nblk) && (n mod 16 =? 0)) then nblk - 1 else nblk in
+  16 * nfull <= n /\ n - 16 * nfull <= 16.
+Proof.
+  intros nblk nfull. unfold nfull, nblk.
+  pose proof (Nat.div_mod n 16 ltac:(lia)) as Hdm.
+  pose proof (Nat.mod_upper_bound n 16 ltac:(lia)) as Hmu.
+  destruct (dfr && (0 <? n / 16) && (n mod 16 =? 0)) eqn:Hd.
+  - apply andb_true_iff in Hd. destruct Hd as [Hd Hm]. apply andb_true_iff in Hd. destruct Hd as [_ Hp].
+    apply Nat.eqb_eq in Hm. apply Nat.ltb_lt in Hp. lia.
+  - lia.
+Qed.
+
+Lemma main_inv c2 X2 rest c3 o23 :
+  Inv c2 X2 -> (rest <> [] -> pb_len c2 = 0) -> gcm_main E H defer enc c2 rest = (c3, o23) ->
+  Inv c3 (X2 ++ rest) /\ O (X2 ++ rest) = O X2 ++ o23 /\ in_length c3 = in_length c2.
+Proof.
+  intros (Xc & t & q & HX & HXc & Ht & Ht16 & Hh & Hc & Hk & Hiv & Hal) Hrest Hm.
+  unfold gcm_main in Hm.
+  destruct rest as [|r0 rest'].
+  - (* nothing left: the context is rewritten with the same values *)
+    rewrite firstn_nil, skipn_nil, chunks_nil in Hm. cbn [gcm_bulk] in Hm.
+    pair_inj2 Hm c3 o23. rewrite !app_nil_r. repeat split; try reflexivity.
+    exists Xc, t, q. cbn [aad_hash cur_counter pb_len pb_enc_key orig_IV aad_length].
+    rewrite !rev_involutive. repeat split; assumption.
+  - set (rest := r0 :: rest') in *.
+    assert (Hp0 : pb_len c2 = 0) by (apply Hrest; discriminate).
+    assert (Ht0 : t = []) by (destruct t; [reflexivity|rewrite Hp0 in Ht; discriminate]).
+    subst t. rewrite app_nil_r in HX. subst X2.
+    destruct (nfull_bounds (length rest) (defer (length rest))) as [Hnf1 Hnf2].
+    set (nfull := if (defer (length rest) && (0 <? length rest / 16) && (length rest mod 16 =? 0))
+                  then length rest / 16 - 1 else length rest / 16) in *.
+    set (B := firstn (16 * nfull) rest) in *.
+    set (tail := skipn (16 * nfull) rest) in *.
+    assert (HB : length B = nfull * 16) by (unfold B; rewrite firstn_length; lia).
+    assert (Htl : length tail <= 16) by (unfold tail; rewrite skipn_length; lia).
+    assert (Hrs : rest = B ++ tail) by (unfold B, tail; symmetry; apply firstn_skipn).
+    assert (Hctr : rev (cur_counter c2) = ctrs q) by exact Hc.
+    assert (Hy0 : rev (aad_hash c2) = ghash_blocks H YA (side Xc (O Xc))).
+    { rewrite Hh. replace (side [] (xorb_list [] (E (ctrs (S q))))) with (@nil N) by (unfold side; destruct enc; reflexivity).
+      rewrite pad16_nil. apply xorb_zeros_r. rewrite length_ghash_blocks by apply length_YA. lia. }
+    rewrite gcm_bulk_spec in Hm
+      by (try (rewrite Hctr; apply length_ctrs); apply (Forall_chunks_exact B nfull HB)).
+    rewrite Hctr, Hy0, inc32_ctrs, (length_chunks_exact B nfull HB), iter_ctrs, concat_chunks in Hm.
+    change (gctr_blocks_E (ctrs (S q)) (chunks 16 B)) with (gctr_E (ctrs (S q)) B) in Hm.
+    set (oB := gctr_E (ctrs (S q)) B) in *.
+    assert (HOB : O (Xc ++ B) = O Xc ++ oB) by (apply O_split; exact HXc).
+    assert (Hy1 : ghash_blocks H (ghash_blocks H YA (side Xc (O Xc))) (if enc then oB else B) =
+                  ghash_blocks H YA (side (Xc ++ B) (O (Xc ++ B)))).
+    { rewrite HOB, side_app. rewrite (ghash_blocks_app H YA (side Xc (O Xc)))
+        by (exists q; apply length_side_exact; exact HXc). reflexivity. }
+    rewrite Hy1 in Hm.
+    assert (HXB : length (Xc ++ B) = (nfull + q) * 16) by (rewrite app_length, HXc, HB; lia).
+    cbv beta iota zeta in Hm.
+    destruct tail as [|a tl] eqn:Htail.
+    + pair_inj2 Hm c3 o23. rewrite app_nil_r in Hrs. rewrite Hrs.
+      repeat split; try reflexivity; [|exact HOB].
+      exists (Xc ++ B), [], (nfull + q).
+      cbn [aad_hash cur_counter pb_len pb_enc_key orig_IV aad_length length].
+      rewrite !rev_involutive.
+      repeat split; try assumption; try lia.
+      * rewrite app_nil_r. reflexivity.
+      * replace (side [] (xorb_list [] (E (ctrs (S (nfull + q)))))) with (@nil N) by (unfold side; destruct enc; reflexivity).
+        rewrite pad16_nil. symmetry. apply xorb_zeros_r. rewrite length_ghash_blocks by apply length_YA. lia.
+      * intros Hn. contradiction.
+    + rewrite <- Htail in *.
+      assert (Htn : tail <> []) by (rewrite Htail; discriminate).
+      pair_inj2 Hm c3 o23. rewrite Hrs.
+      repeat split; try reflexivity.
+      * exists (Xc ++ B), tail, (nfull + q).
+        cbn [aad_hash cur_counter pb_len pb_enc_key orig_IV aad_length].
+        rewrite !rev_involutive, inc32_ctrs.
+        repeat split; try assumption; try lia.
+        -- rewrite app_assoc. reflexivity.
+        -- rewrite Htail. reflexivity.
+      * rewrite app_assoc, (O_split (Xc ++ B) tail (nfull + q) HXB), HOB.
+        rewrite gctr_E_short by assumption. rewrite inc32_ctrs, <- app_assoc. reflexivity.
+Qed.
+
+
+(* ------------------------------------------------------------------ one update, a list of updates *)
+
+Lemma update_inv c X d c' o :
+  Inv c X -> gcm_update E H defer enc c d = (c', o) ->
+  Inv c' (X ++ d) /\ O (X ++ d) = O X ++ o /\
+  in_length c' = match d with [] => in_length c | _ => add64 (in_length c) (N.of_nat (length d)) end.
+Proof.
+  intros HI Hu. unfold gcm_update in Hu.
+  destruct d as [|d0 d'].
+  - pair_inj2 Hu c' o. rewrite !app_nil_r. auto.
+  - set (d := d0 :: d') in *.
+    set (c1 := mk_gcm_ctx (aad_hash c) (aad_length c) (add64 (in_length c) (N.of_nat (length d)))
+                          (pb_enc_key c) (orig_IV c) (cur_counter c) (pb_len c)) in *.
+    assert (HI1 : Inv c1 X).
+    { destruct HI as (Xc & t & q & HI). exists Xc, t, q. exact HI. }
+    destruct (gcm_partial_block H enc c1 d) as [[c2 o1] rest] eqn:Hpb.
+    destruct (gcm_main E H defer enc c2 rest) as [c3 o23] eqn:Hm.
+    pair_inj2 Hu c' o.
+    destruct (partial_inv c1 X d c2 o1 rest HI1 Hpb) as (d1 & Hd & HI2 & HO2 & Hr2 & Hl2).
+    destruct (main_inv c2 (X ++ d1) rest c3 o23 HI2 Hr2 Hm) as (HI3 & HO3 & Hl3).
+    replace (X ++ d) with ((X ++ d1) ++ rest) by (rewrite <- app_assoc, <- Hd; reflexivity).
+    repeat split.
+    + exact HI3.
+    + rewrite HO3, HO2, app_assoc. reflexivity.
+    + rewrite Hl3, Hl2. reflexivity.
+Qed.
+
+Lemma wrap64_add a b : wrap 64 (wrap 64 a + b) = wrap 64 (a + b).
+Proof. rewrite !wrap_mod. apply N.add_mod_idemp_l. discriminate. Qed.
+
+Definition InvL (c : gcm_ctx) (X : list N) : Prop := in_length c = wrap 64 (N.of_nat (length X)).
+
+Lemma updates_inv segs : forall c X c' outs,
+  Inv c X -> InvL c X -> gcm_updates E H defer enc c segs = (c', outs) ->
+  Inv c' (X ++ concat segs) /\ O (X ++ concat segs) = O X ++ outs /\ InvL c' (X ++ concat segs).
+Proof.
+  induction segs as [|d segs IH]; intros c X c' outs HI HL Hu.
+  - cbn [gcm_updates] in Hu. pair_inj2 Hu c' outs. cbn [concat]. rewrite !app_nil_r. auto.
+  - cbn [gcm_updates] in Hu.
+    destruct (gcm_update E H defer enc c d) as [c1 o] eqn:Hu1.
+    destruct (gcm_updates E H defer enc c1 segs) as [c2 os] eqn:Hu2.
+    pair_inj2 Hu c' outs.
+    destruct (update_inv c X d c1 o HI Hu1) as (HI1 & HO1 & Hl1).
+    assert (HL1 : InvL c1 (X ++ d)).
+    { unfold InvL in *. rewrite Hl1. destruct d as [|d0 d']; [rewrite app_nil_r; exact HL|].
+      unfold add64, w64. rewrite HL, wrap64_add, app_length, Nat2N.inj_add. reflexivity. }
+    destruct (IH c1 (X ++ d) c2 os HI1 HL1 Hu2) as (HI2 & HO2 & HL2).
+    cbn [concat]. rewrite app_assoc. repeat split; try assumption.
+    rewrite HO2, HO1, app_assoc. reflexivity.
+Qed.
+
+(* ------------------------------------------------------------------ GCM_COMPLETE *)
+
+Lemma inv_side_split c X : Inv c X ->
+  exists Xc t q, X = Xc ++ t /\ length Xc = q * 16 /\ length t = pb_len c /\ length t <= 16 /\
+    side X (O X) = side Xc (O Xc) ++ side t (xorb_list t (E (ctrs (S q)))) /\
+    rev (aad_hash c) = xorb_list (ghash_blocks H YA (side Xc (O Xc)))
+                                 (pad16 (side t (xorb_list t (E (ctrs (S q)))))).
+Proof.
+  intros (Xc & t & q & HX & HXc & Ht & Ht16 & Hh & _). exists Xc, t, q.
+  repeat split; try assumption.
+  rewrite HX, (O_split Xc t q HXc), side_app. f_equal. f_equal.
+  destruct t as [|a t]; [reflexivity|]. apply gctr_E_short; [discriminate|exact Ht16].
+Qed.
+
+Lemma finalize_spec c X tag_len :
+  Inv c X -> in_length c = N.of_nat (length X) ->
+  snd (gcm_finalize E H c tag_len) =
+  firstn tag_len (xorb_list (gcm_s H aad (side X (O X))) (E J0)).
+Proof.
+  intros HI HL.
+  destruct (inv_side_split c X HI) as (Xc & t & q & HX & HXc & Ht & Ht16 & Hs & Hh).
+  destruct HI as (_ & _ & _ & _ & _ & _ & _ & _ & _ & _ & Hiv & Hal).
+  set (K := E (ctrs (S q))) in *. set (ct := side t (xorb_list t K)) in *.
+  assert (Hct : length ct = length t) by (apply length_side_open; [exact Ht16|apply E_len, length_ctrs]).
+  assert (Hlen : length (side X (O X)) = length X).
+  { rewrite Hs, app_length, (length_side_exact Xc q HXc), Hct, HX, app_length, HXc. reflexivity. }
+  unfold gcm_finalize. cbn [snd]. rewrite Hiv. f_equal. f_equal.
+  unfold gcm_s. fold YA. rewrite Hal, HL, <- Hlen.
+  set (lb := gcm_len_block (N.of_nat (length aad)) (N.of_nat (length (side X (O X))))).
+  assert (Hlb : length lb = 16) by apply length_gcm_len_block.
+  rewrite (ghash_blocks_one H _ lb) by (try lia; apply (len16_nonnil _ Hlb)).
+  rewrite (pad16_full lb Hlb). unfold gmul. f_equal. f_equal.
+  rewrite Hs, (ghash_blocks_app H YA (side Xc (O Xc))) by (exists q; apply length_side_exact; exact HXc).
+  rewrite Hh.
+  destruct (pb_len c) eqn:Hp.
+  - assert (Hct0 : ct = []) by (apply length_zero_iff_nil; rewrite Hct; exact Ht).
+    rewrite Hct0, ghash_blocks_nil, pad16_nil. apply xorb_zeros_r.
+    rewrite length_ghash_blocks by apply length_YA. lia.
+  - rewrite (ghash_blocks_one H _ ct); [reflexivity| |lia].
+    intros Hn. apply (f_equal (@length N)) in Hn. rewrite Hct, Ht in Hn. discriminate.
+Qed.
+
+(* ------------------------------------------------------------------ the whole message *)
+
+Theorem stream_is_spec segs tag_len :
+  (N.of_nat (length (concat segs)) < 2 ^ 64)%N ->
+  gcm_stream E H defer enc iv aad segs tag_len =
+  (O (concat segs),
+   firstn tag_len (xorb_list (gcm_s H aad (side (concat segs) (O (concat segs)))) (E J0))).
+Proof.
+  intros Hlt. unfold gcm_stream.
+  destruct (gcm_updates E H defer enc (gcm_init H iv aad) segs) as [c1 out] eqn:Hu.
+  destruct (updates_inv segs _ [] c1 out init_inv ltac:(reflexivity) Hu) as (HI & HO & HL).
+  cbn [app] in *. unfold O at 2 in HO. rewrite gctr_E_nil in HO. cbn [app] in HO.
+  f_equal; [symmetry; exact HO|].
+  apply finalize_spec; [exact HI|]. unfold InvL in HL. rewrite HL. apply wrap_small. exact Hlt.
+Qed.
+
+Lemma oneshot_is_stream data tag_len :
+  gcm_oneshot E H defer enc iv aad data tag_len = gcm_stream E H defer enc iv aad [data] tag_len.
+Proof.
+  unfold gcm_oneshot, gcm_stream. cbn [gcm_updates].
+  destruct (gcm_update E H defer enc (gcm_init H iv aad) data) as [c1 out].
+  rewrite app_nil_r. reflexivity.
+Qed.
+
 End Stream.
